@@ -92,4 +92,42 @@ if w is None:
         bad = {j.task.fullname: j.status for j in jobs if j.task.fullname.split(".")[-1] in ("boom2", "top2") and j.status != "FAILED"}
         if bad:
             w = dict(scenario="unpicklable error", observed=f"jobs on the failing path not recorded FAILED: {bad}")
-finish(w is not None, witness=w, evaluations=n, bound="failing leaf at depth 0..2 inside dict/list containers, two executions each")
+if w is None:
+    # one failing expression used several times in one job: guarding one use (catch) must not swallow the failure of the others
+    from redun.scheduler import catch
+
+    @task(namespace=ns)
+    def recover(err):
+        return "recovered"
+
+    @task(namespace=ns)
+    def pair(a, b):
+        return [a, b]
+
+    def shapes(x):
+        return {"[x, x]": lambda: [x, x], "pair(x, x)": lambda: pair(x, x), "[catch(x), x]": lambda: [catch(x, ValueError, recover), x],
+                "[x, catch(x)]": lambda: [x, catch(x, ValueError, recover)], "pair(catch(x), x)": lambda: pair(catch(x, ValueError, recover), x),
+                "[catch(x), catch(x)]": lambda: [catch(x, ValueError, recover), catch(x, ValueError, recover)]}
+
+    for label in list(shapes(None)):
+        @task(namespace=ns, name="dup_" + str(abs(hash(label)) % 10**6))
+        def dup_main(label=label):
+            x = boom("dup")
+            return shapes(x)[label]()
+        s = quiet_scheduler()
+        n += 1
+        err, res = None, None
+        try:
+            with silence():
+                res = s.run(dup_main())
+        except BaseException as e:
+            err = e
+        all_guarded = label == "[catch(x), catch(x)]"
+        if all_guarded:
+            if err is not None or res != ["recovered", "recovered"]:
+                w = dict(scenario=label, observed=f"expected ['recovered', 'recovered'], got {res!r} / {type(err).__name__}: {err}")
+                break
+        elif not isinstance(err, ValueError) or str(err) != "dup":
+            w = dict(scenario="a failing expression used twice in one job: " + label, observed=f"run returned {res!r} / raised {type(err).__name__}: {err}", expected="ValueError: dup")
+            break
+finish(w is not None, witness=w, evaluations=n, bound="failing leaf at depth 0..2 inside dict/list containers, two executions each; an unpicklable error; 6 shapes of a failing expression used twice in one job with and without catch")
